@@ -24,7 +24,8 @@ type recKind struct {
 	Type uint16
 	Raw  bool // enter through Push(typ, raw) instead of PushMessage
 	Nil  bool
-	TS   int // timestamp variant: records of one event normally share a timestamp, these do not; -1 = one tick before the virtual present
+	Wrap bool // raw records whose header carries sequence + 2^32: not a 32-bit sequence number, Push must refuse it and nothing may happen
+	TS   int  // timestamp variant: records of one event normally share a timestamp, these do not; -1 = one tick before the virtual present
 }
 
 var recKinds = map[string]recKind{
@@ -43,6 +44,10 @@ var recKinds = map[string]recKind{
 	"midNow":    {Name: "midNow", Type: 1300, TS: -1},
 	"midRawNow": {Name: "midRawNow", Type: 1300, Raw: true, TS: -1},
 	"nil":       {Name: "nil", Nil: true},
+	// the byte-level entry point for EOE records, and headers whose sequence does not fit 32 bits
+	"eoeRaw":     {Name: "eoeRaw", Type: 1320, Raw: true},
+	"eoeRawWrap": {Name: "eoeRawWrap", Type: 1320, Raw: true, Wrap: true},
+	"midRawWrap": {Name: "midRawWrap", Type: 1300, Raw: true, Wrap: true},
 }
 
 // terminating is the completion rule named by the property's anchors
@@ -67,13 +72,17 @@ type Op struct {
 	Seq   uint32 // absolute sequence number
 	Kind  string // record kind name (or "type" with Type set)
 	Type  uint16
-	Delta int // ticks
+	Delta int    // ticks
+	Raw   string // Kind "type": RawData of the pushed message (harvested literals)
 }
 
 func (o Op) String() string {
 	switch o.Code {
 	case opPush:
 		if o.Kind == "type" {
+			if o.Raw != "" {
+				return fmt.Sprintf("Push(%d,type=%d,raw=%q)", o.Seq, o.Type, o.Raw)
+			}
 			return fmt.Sprintf("Push(%d,type=%d)", o.Seq, o.Type)
 		}
 		return fmt.Sprintf("Push(%d,%s)", o.Seq, o.Kind)
@@ -90,6 +99,7 @@ func (o Op) String() string {
 type Config struct {
 	MaxInFlight  int
 	TimeoutTicks int64 // timeout in ticks; 1<<40 = "1000h"
+	TimeoutHalf  bool  // plus half a tick: a configured timeout that is not on the grid of reachable instants
 	Base         uint32
 	Offsets      []uint32
 	Kinds        []string
@@ -109,6 +119,9 @@ func (c Config) timeout() time.Duration {
 	if c.TimeoutTicks == farTimeout {
 		return 1000 * time.Hour
 	}
+	if c.TimeoutHalf {
+		return time.Duration(c.TimeoutTicks)*tick + tick/2
+	}
 	return time.Duration(c.TimeoutTicks) * tick
 }
 
@@ -120,6 +133,9 @@ func (c Config) String() string {
 	re := ""
 	if c.Reenter {
 		re = " reentrant-stream"
+	}
+	if c.TimeoutHalf {
+		to += ".5"
 	}
 	return fmt.Sprintf("maxInFlight=%d timeout=%s base=%d offs=%v kinds=%v ticks=%v maxrecs=%d%s", c.MaxInFlight, to, c.Base, c.Offsets, c.Kinds, c.Ticks, c.MaxRecs, re)
 }
@@ -406,7 +422,10 @@ func (in *Instance) Apply(op Op) {
 		in.clock.Advance(time.Duration(op.Delta) * tick)
 		return
 	case opPush:
-		k := recKinds[op.Kind]
+		k, known := recKinds[op.Kind]
+		if !known && op.Kind != "type" {
+			panic("harness: unknown record kind " + op.Kind)
+		}
 		if op.Kind == "type" {
 			k = recKind{Type: op.Type}
 		}
@@ -414,6 +433,22 @@ func (in *Instance) Apply(op Op) {
 		if k.Nil {
 			in.r.PushMessage(nil)
 			in.endCall(op)
+			in.afterPush(op)
+			return
+		}
+		if k.Wrap {
+			// the header's sequence field is seq + 2^32: no 32-bit sequence number; the call must
+			// fail and change nothing (monitors run as for any call)
+			raw := fmt.Sprintf("audit(1700000000.123:%d): wrapped a=b", uint64(op.Seq)+1<<32)
+			cb := in.callbacks
+			err := in.r.Push(auparse.AuditMessageType(k.Type), []byte(raw))
+			in.endCall(op)
+			if err == nil {
+				in.fail("M01", "overflowing-sequence-accepted", "Push(%d, %q) returned nil: the sequence field does not fit 32 bits", k.Type, raw)
+			}
+			if in.callbacks != cb {
+				in.fail("M10", "evicted-without-cause", "Push(%d, %q) (rejected header) made %d callbacks", k.Type, raw, in.callbacks-cb)
+			}
 			in.afterPush(op)
 			return
 		}
@@ -451,7 +486,7 @@ func (in *Instance) Apply(op Op) {
 				in.fail("M01", "push-error", "Push(%d, %q) returned %v", k.Type, raw, err)
 			}
 		} else {
-			rec.ptr = &auparse.AuditMessage{RecordType: auparse.AuditMessageType(k.Type), Sequence: op.Seq}
+			rec.ptr = &auparse.AuditMessage{RecordType: auparse.AuditMessageType(k.Type), Sequence: op.Seq, RawData: op.Raw}
 			if k.TS != 0 {
 				rec.ptr.Timestamp = in.stamp(k)
 			}
@@ -542,12 +577,16 @@ func (in *Instance) Ops() []Op {
 		ops = append(ops, Op{Code: opMaintain}, Op{Code: opClose})
 		ops = append(ops, Op{Code: opPush, Seq: c.Base + c.Offsets[0], Kind: "fin"})
 		ops = append(ops, Op{Code: opPush, Seq: c.Base + c.Offsets[len(c.Offsets)-1], Kind: "mid"})
+		if len(c.Offsets) > 1 {
+			// a complete event ahead of everything delivered so far: a gap that lies across the Close call
+			ops = append(ops, Op{Code: opPush, Seq: c.Base + c.Offsets[len(c.Offsets)-1], Kind: "fin"})
+		}
 		return ops
 	}
 	for _, off := range c.Offsets {
 		s := c.Base + off
 		for _, k := range c.Kinds {
-			if k != "eoe" && k != "nil" {
+			if rk := recKinds[k]; k != "eoe" && k != "nil" && rk.Type != typeEOE && !rk.Wrap {
 				if p := in.pending[s]; p != nil && len(p.msgs) >= c.MaxRecs {
 					continue
 				}
